@@ -77,6 +77,10 @@ func (eval Evaluator) AutomorphismHoisted(level int, ctIn *Ciphertext, c1DecompQ
 		return fmt.Errorf("cannot apply AutomorphismHoisted: %w", err)
 	}
 
+	if evk.BaseTwoDecomposition != 0 {
+		return fmt.Errorf("cannot apply AutomorphismHoisted: method is unsupported for GaloisKey[%d].BaseTwoDecomposition != 0", galEl)
+	}
+
 	opOut.Resize(opOut.Degree(), level)
 
 	ringQ := eval.params.RingQ().AtLevel(level)
@@ -122,7 +126,7 @@ func (eval Evaluator) AutomorphismHoistedLazy(levelQ int, ctIn *Ciphertext, c1De
 	ctTmp.MetaData = ctIn.MetaData
 
 	if err = eval.GadgetProductHoistedLazy(levelQ, c1DecompQP, &evk.GadgetCiphertext, ctTmp); err != nil {
-		panic(fmt.Errorf("eval.GadgetProductHoistedLazy: %w", err))
+		return fmt.Errorf("cannot apply AutomorphismHoistedLazy: %w", err)
 	}
 
 	ringQP := eval.params.RingQP().AtLevel(levelQ, levelP)
